@@ -91,7 +91,95 @@ def listing(entries, fname):
 WILD = r"(?:(?!(?:> )*(?:\[stdout\] |\[stderr\] |current stack: |stack \d+: ))[^\n]*\n|> )*?"
 
 
-def loose_pattern(events, end, fname, path, cmds, states):
+ANYLINE = r"(?:(?!(?:> )*(?:\[stdout\] |\[stderr\] ))[^\n]*\n|> )*?"
+
+
+def state_pattern(truth):
+    """a state dump of any layout: lines among which, in this order, one shows the selected stack and one line per non-empty
+    stack shows its index followed by its elements in order"""
+    import re
+    cur, stacks = truth
+    num = lambda v: r"(?<![\d/])%d(?![\d/])" % v
+    pat = ANYLINE + r"[^\n]*" + num(cur) + r"[^\n]*\n"
+    for i, elems in stacks:
+        pat += ANYLINE + r"[^\n]*?" + num(i) + "".join(r"[^\n]*?" + re.escape(e) for e in elems) + r"[^\n]*\n"
+    return pat + ANYLINE
+
+
+def shows(text, truth):
+    """does the text show the state: the selected stack, and every non-empty stack with its elements in order?"""
+    import re
+    cur, stacks = truth
+    if not re.search(r"(?<![\d/])%d(?![\d/])" % cur, text):
+        return "the selected stack %d" % cur
+    for i, elems in stacks:
+        ok = False
+        for line in text.split("\n"):                       # one line per stack, whatever the layout
+            pos = re.search(r"(?<![\d/])%d(?![\d/])" % i, line)
+            if not pos:
+                continue
+            at, good = pos.end(), True
+            for e in elems:
+                j = line.find(e, at)
+                if j < 0:
+                    good = False
+                    break
+                at = j + len(e)
+            if good:
+                ok = True
+                break
+        if not ok:
+            return "stack %d = [%s]" % (i, ", ".join(elems))
+    return None
+
+
+def free_layout_match(events, got, fname, cmds, truths):
+    """Layout-free comparison (linear): the lines the property fixes — echoed commands, [stdout]/[stderr] records — must be the
+    expected ones in order; every `state` request must be answered, in the free lines at its place, by text that shows the
+    true state.  Everything else is free."""
+    import re
+    txt = lambda f: "".join(chr(int(x)) for x in f.split(".")) if f else ""
+    exp = []                                     # ("L", line) | ("S", k)
+    for ev in events:
+        if ev.startswith("C:") and ev != "C:":
+            ids = [int(x) for x in ev[2:].split(".")] if ev[2:] else []
+            for ln in listing([(i,) + cmds[i] for i in ids], fname).split("\n")[:-1]:
+                exp.append(("L", ln))
+        elif ev.startswith("F:"):
+            _, o, e = ev.split(":")
+            for tag, t in (("[stdout] ", txt(o)), ("[stderr] ", txt(e))):
+                if t:
+                    if "\n" in t or "\r" in t:
+                        return False             # multi-line program text: not handled here
+                    exp.append(("L", tag + t))
+        elif ev.startswith("S:"):
+            exp.append(("S", int(ev[2:])))
+    fixed_re = re.compile(r"^(?:\[stdout\] |\[stderr\] |\d+ *\| %s:\d+:\d+ )" % re.escape(fname))
+    regions, fixed, cur = [], [], []
+    for ln in got.split("\n"):
+        s = ln
+        while s.startswith("> "):
+            s = s[2:]
+        if fixed_re.match(s):
+            regions.append("\n".join(cur))
+            cur = []
+            fixed.append(s)
+        else:
+            cur.append(s)
+    regions.append("\n".join(cur))
+    want_fixed = [x for t, x in exp if t == "L"]
+    if fixed != want_fixed:
+        return False
+    j = 0
+    for t, x in exp:
+        if t == "L":
+            j += 1
+        elif x >= len(truths) or shows(regions[j], truths[x]) is not None:
+            return False
+    return True
+
+
+def loose_pattern(events, end, fname, path, cmds, states, truths=None):
     """a regular expression for the transcript in which only what the property talks about is fixed — the echoed commands,
     the text shown for stdout/stderr, the displayed states — and everything else (log lines, error wording, help text,
     prompts) may be reworded; such lines can never look like a [stdout]/[stderr] record or a state dump"""
@@ -108,6 +196,11 @@ def loose_pattern(events, end, fname, path, cmds, states):
             seg = ("[stdout] " + txt(o) + "\n" if o else "") + ("[stderr] " + txt(e) + "\n" if e else "")
         elif ev.startswith("S:"):
             k = int(ev[2:])
+            if truths is not None:
+                # layout-free: the dump only has to show the true state
+                if k < len(truths):
+                    pat += state_pattern(truths[k]) + WILD
+                continue
             seg = states[k] if k < len(states) else None
         if seg:
             pat += re.escape(seg) + WILD
@@ -189,15 +282,6 @@ def run(prop, tier, seed):
             tl.append((int(cur), stacks))
         truths.append(tl)
 
-    def shows(text, truth):
-        cur, stacks = truth
-        if not re.search(r"(?<![\d/])%d(?![\d/])" % cur, text):
-            return "the selected stack %d" % cur
-        for i, elems in stacks:
-            pat = r"(?<![\d/])%d(?![\d/])" % i + "".join(r".*?" + re.escape(e) for e in elems)
-            if not re.search(pat, text, re.S):
-                return "stack %d = [%s]" % (i, ", ".join(elems))
-        return None
     incomplete = []
     for k in range(n):
         for j, (txt, tr) in enumerate(zip(states[k], truths[k])):
@@ -265,6 +349,10 @@ def run(prop, tier, seed):
             # echoed commands, the shown program text and the displayed states are exactly the expected ones
             if cls == want_cls and loose_pattern(events, end, "d%d.hyeong" % k, path, infos[k], states[k]).match(got):
                 hist["cosmetic-difference"] += 1
+                continue
+            # the debugger may lay a state dump out in its own way: then it only has to show the true state
+            if cls == want_cls and free_layout_match(events, got, "d%d.hyeong" % k, infos[k], truths[k]):
+                hist["state-layout-differs"] += 1
                 continue
             fails.append((k, "transcript", got, want, cls, gerr))
     seen = set()
